@@ -1,9 +1,13 @@
 //! jv — bounded exhaustive exploration harness for jrsonnet (see /verif/DESIGN.md)
 #![allow(clippy::all, clippy::pedantic, clippy::nursery)]
 
+mod ast;
 mod c04;
+mod c06;
+mod canon;
 mod common;
 mod enumr;
+mod gen;
 mod imp;
 
 use std::path::PathBuf;
@@ -20,7 +24,7 @@ pub struct Check {
 }
 
 fn registry() -> Vec<Check> {
-	vec![c04::CHECK]
+	vec![c04::CHECK, c06::CHECK]
 }
 
 fn usage() -> ! {
